@@ -50,13 +50,16 @@ def run(ctx, rep):
     r3(ctx, rep)
     fairness_rule(ctx, rep)
     from . import c08
-    R5 = rep.rule('C02.R5', 'the evaluator the countermodel test relies on is compositional and frame-correct (all C08 rules)')
+    R5 = rep.rule('C02.R5', 'the evaluator the countermodel test relies on is compositional and frame-correct (C08.R1-R4)')
     sub = Report('C08', rep.tier, rep.repo)
     c08.run(ctx, sub)
-    for _ in range(sum(r['instances'] for r in sub.rules.values())):
+    # (C08.R5, identity completion, is C08's own clause: a countermodel here is one by the library's evaluator)
+    for _ in range(sum(r['instances'] for rid, r in sub.rules.items() if rid != 'C08.R5')):
         rep.instance(R5, ok=True)
     rep.consulted |= sub.consulted
     for f in sub.findings:
+        if f.rule == 'C08.R5':
+            continue
         rep.rules[R5]['failed'] += 1
         rep.discharged -= 1
         rep.finding(R5, f.key.replace('C08.', 'C02.R5/C08.', 1), f.where, f.construct, f.msg)
